@@ -180,6 +180,106 @@ def first_difference(a, b, path="$"):
     return None if a == b else f"{path}: {str(a)[:80]} -> {str(b)[:80]}"
 
 
+def _scribble_state(st):
+    for a in ("velocity", "acceleration", "yaw_rate"):
+        if hasattr(st, a) and isinstance(getattr(st, a), float):
+            setattr(st, a, getattr(st, a) + 17.0)
+    pos = getattr(st, "position", None)
+    if isinstance(pos, np.ndarray):
+        pos += 5.0  # in place: the array belongs to the copy
+
+
+def _scribble_network(net):
+    for la in net.lanelets:
+        for arr_ in (la.left_vertices, la.center_vertices, la.right_vertices):
+            arr_ += 2.5
+        la.predecessor.append(424242)
+        la.traffic_signs.add(424243)
+        la.lanelet_type.clear()
+        la.user_one_way.clear()
+        if la.stop_line is not None:
+            la.stop_line.start += 1.0
+        if la.static_obstacles_on_lanelet is not None:
+            la.static_obstacles_on_lanelet.add(424244)
+        la.dynamic_obstacles_on_lanelet.setdefault(0, set()).add(424245)
+    for sg in net.traffic_signs:
+        sg.first_occurrence.add(424246)
+        for e in sg.traffic_sign_elements:
+            e.additional_values.append("13")
+    for lt in net.traffic_lights:
+        c = lt.traffic_light_cycle
+        if c is not None and c.cycle_elements:
+            c.cycle_elements[0].duration += 3
+            c.cycle_elements = c.cycle_elements  # the documented way to make the change effective
+        lt.color.clear()
+    for it in net.intersections:
+        for inc in it.incomings:
+            inc.incoming_lanelets.add(424247)
+            inc.successors_left.add(424248)
+        it.crossings.add(424249)
+
+
+def _scribble_pps(pps):
+    for pp in pps.planning_problem_dict.values():
+        _scribble_state(pp.initial_state)
+        for st in pp.goal.state_list:
+            if hasattr(st, "time_step") and isinstance(st.time_step, Interval):
+                st.time_step = Interval(st.time_step.start + 1, st.time_step.end + 2)
+            _scribble_state(st)
+        log = pp.goal.lanelets_of_goal_position
+        if log:
+            for v in log.values():
+                v.append(424250)
+    pps.planning_problem_dict.pop(next(iter(pps.planning_problem_dict)), None)
+
+
+def _scribble(c):
+    """Work on a deep copy IN PLACE at every level (containers, arrays, states): a copy that still shares something
+    with its source hands these changes through to the source."""
+    from commonroad.planning.planning_problem import PlanningProblemSet
+    from commonroad.scenario.lanelet import LaneletNetwork
+    from commonroad.scenario.scenario import Scenario
+
+    if isinstance(c, PlanningProblemSet):
+        return _scribble_pps(c)
+    if isinstance(c, LaneletNetwork):
+        return _scribble_network(c)
+    assert isinstance(c, Scenario)
+    for o in c.obstacles:
+        init = getattr(o, "initial_state", None)
+        if init is not None:
+            _scribble_state(init)
+        p = getattr(o, "prediction", None)
+        if isinstance(p, TrajectoryPrediction):
+            for st in p.trajectory.state_list:
+                _scribble_state(st)
+            if p.center_lanelet_assignment:
+                for v in p.center_lanelet_assignment.values():
+                    v.add(424251)
+        elif isinstance(p, SetBasedPrediction):
+            p.occupancy_set.pop()
+        sh = getattr(o, "obstacle_shape", None)
+        if sh is not None and hasattr(sh, "shapes"):
+            sh.shapes.pop()
+        for attr in ("initial_center_lanelet_ids", "initial_shape_lanelet_ids"):
+            v = getattr(o, attr, None)
+            if isinstance(v, set):
+                v.add(424252)
+        if getattr(o, "signal_series", None):
+            o.signal_series.pop()
+        if isinstance(o, DynamicObstacle):
+            o.history.append(copy.copy(o.initial_state))
+    _scribble_network(c.lanelet_network)
+    sid = c.scenario_id
+    sid.map_id += 5
+    if isinstance(sid.prediction_id, list):
+        sid.prediction_id.append(9)
+    if c.tags is not None:
+        c.tags.clear()
+    c.author = "someone else"
+    c.translate_rotate(np.array([3.0, 1.0]), 0.3)
+
+
 class Run(RunBase):
     def __init__(self, universe, cfg):
         super().__init__(universe, cfg)
@@ -434,6 +534,10 @@ class Run(RunBase):
             x = objs[w]
             x == x, x != copy.deepcopy(x)  # noqa
             hash(x)
+        elif w == "scenario_id":
+            sid = sc.scenario_id
+            sid == copy.deepcopy(sid), sid != sid, str(sid), sid.country_name, sid.map_name  # noqa
+            hash(sid)  # (unhashable with a list of prediction ids: tolerated as a raising inspection)
         elif w == "obstacles":
             for o in sc.obstacles:
                 o == o, hash(o)  # noqa
@@ -460,10 +564,13 @@ class Run(RunBase):
             copy.copy(tgt)
         elif w == "deepcopy":
             c = copy.deepcopy(tgt)
-            if op.get("mutate_copy") and op["target"] == "scenario":
-                c.translate_rotate(np.array([3.0, 1.0]), 0.3)
+            if op.get("mutate_copy"):
+                _scribble(c)
+                self.probe("deep-copy-worked-on-in-place")
         elif w == "pickle":
-            pickle.loads(pickle.dumps(tgt))
+            c = pickle.loads(pickle.dumps(tgt))
+            if op.get("mutate_copy"):
+                _scribble(c)
 
     def _do_render(self, op):
         import matplotlib.pyplot as plt
@@ -601,7 +708,8 @@ def _inspector(rng, run, cfg):
                 states = [dict(st, t=t + i, pos=[pos[0] + i, pos[1]]) for i in range(rng.randint(1, 4))]
                 op = {"op": k, "pp": pid, "what": "goal_reached", "states": states}
         elif k == "compare":
-            op = {"op": k, "what": rng.pick(["scenario", "network", "pps", "obstacles", "lanelets", "problems", "states"]),
+            op = {"op": k, "what": rng.pick(["scenario", "network", "pps", "obstacles", "lanelets", "problems", "states",
+                                                "scenario_id"]),
                   "array": rng.chance(0.3)}
         elif k == "copy":
             op = {"op": k, "what": rng.pick(["copy", "deepcopy", "pickle"]),
@@ -662,7 +770,8 @@ class C18(Property):
                        "feature:shape-group", "feature:set-based", "export-compared-xml", "export-compared-pb",
                        "cell:q_obstaclexcustom-state-without-orientation", "cell:exportxdefaultdict-goal-table",
                        "cell:renderxcustom-state-without-orientation", "op-raised:goal", "op-raised:export", "render-flag:draw_intersections", "render-flag:draw_icon",
-                       "render-animation-with-focus-obstacle", "feature:tiny-coordinates"]
+                       "render-animation-with-focus-obstacle", "feature:tiny-coordinates",
+                       "feature:scenario-id-with-several-prediction-ids", "deep-copy-worked-on-in-place"]
     assumptions = [
         "the snapshot reads public accessors only and never touches derived data whose computation is itself one of "
         "the side effects hunted (occupancy_set, distance, shapely_object)",
@@ -755,8 +864,15 @@ class C18(Property):
         for la in net["lanelets"][:4]:
             panel.append(gen.lanelet_point(rng, la))
         panel.append([777.0, -777.0])
-        spec = {"dt": 0.1, "network": net, "obstacles": obstacles, "tags": ["URBAN"],
-                "sid": {"country": "DEU", "map": "RO", "map_id": 1}}
+        sid = {"country": "DEU", "map": "RO", "map_id": 1}
+        r = rng.random()
+        if r < 0.2:
+            # cooperative benchmark ids enumerate several predictions: C-DEU_RO-1_2_I-1-2
+            sid.update(coop=True, conf=2, beh="I", pred=[1, 2])
+            features.add("scenario-id-with-several-prediction-ids")
+        elif r < 0.3:
+            sid.update(conf=3, beh="S", pred=[4])
+        spec = {"dt": 0.1, "network": net, "obstacles": obstacles, "tags": ["URBAN"], "sid": sid}
         return {"scenario": spec, "pps": pps, "panel": panel, "features": sorted(features)}
 
     def new_run(self, universe, cfg):
